@@ -36,6 +36,9 @@ pub struct Env {
 	pub stale_sig: Option<Signature>,
 	pub tip: u64,
 	pub unit: u64,
+	/// amount and fee of the request as the counterparty received it (for `echo`)
+	pub fwd: Option<(u64, FeeFields)>,
+	pub invoice: bool,
 }
 
 /// a private secp context (the process-wide one is a mutex the wallet code takes too)
@@ -175,12 +178,30 @@ pub fn apply(class: &str, v: &mut SlateV4, env: &Env) -> Result<(), String> {
 	match class {
 		"none" => {}
 		// ---- scalar fields
-		"amt_set" | "pre_amt_plus" => v.amt = env.amount + env.unit,
-		"pre_amt_minus" => v.amt = env.amount.saturating_sub(env.unit),
-		"fee_set" | "pre_fee_plus" => {
+		"amt_set" | "pre_amt_plus" | "cc_amt_plus" => v.amt = env.amount + env.unit,
+		"pre_amt_minus" | "cc_amt_minus" => v.amt = env.amount.saturating_sub(env.unit),
+		// consistent counterparty: what the recipient gets is lowered by what the fee is raised (and the reverse)
+		"cc_both" => {
+			v.amt = env.amount.saturating_sub(env.unit);
 			v.fee = FeeFields::new(0, env.fee + env.unit).map_err(|e| format!("{:?}", e))?
 		}
-		"fee_minus" | "pre_fee_minus" => {
+		"cc_both_rev" => {
+			v.amt = env.amount + env.unit;
+			v.fee = FeeFields::new(0, env.fee.saturating_sub(env.unit).max(1)).map_err(|e| format!("{:?}", e))?
+		}
+		// a non-compact reply: its amount and fee fields name what the counterparty was asked (in an
+		// invoice the payer sets the fee itself and the reply already names it)
+		"echo" => {
+			let (a, f) = env.fwd.ok_or("no request recorded")?;
+			v.amt = a;
+			if !env.invoice {
+				v.fee = f;
+			}
+		}
+		"fee_set" | "pre_fee_plus" | "cc_fee_plus" => {
+			v.fee = FeeFields::new(0, env.fee + env.unit).map_err(|e| format!("{:?}", e))?
+		}
+		"fee_minus" | "pre_fee_minus" | "cc_fee_minus" => {
 			v.fee = FeeFields::new(0, env.fee.saturating_sub(env.unit).max(1)).map_err(|e| format!("{:?}", e))?
 		}
 		"fee_zero" => v.fee = FeeFields::zero(),
